@@ -47,6 +47,7 @@ TABLE = [
     (r"^applytx::proof_is_tip910\|extern\|verify\|.*Tip910MelPowHash", "finding", "D10/D11"),
     (r"^applytx::validate_and_get_doscmint_speed\|assert\|Overflow\(Sub\)\|\$1\.height\.0,1", "inv", "the history lookup at the coin's height succeeded before, so height ≥ 1"),
     (r"^applytx::validate_and_get_doscmint_speed\|extern\|<melstructs::BlockHeight as std::ops::Sub>::sub\|\$1\.height,", "inv", "a coin is never newer than the state applying the batch (C02.R4: height = this.height)"),
+    (r"^applytx::create_next_state\|extern\|base_fee\|", "weights-capped", "every weight handed to base_fee is capped at u128::MAX / (covenants + 1), so the sum inside base_fee cannot overflow (C05.R1, re-evaluated here)"),
     (r"^applytx::(check_tx_validity|check_dosc_total_output)\|extern\|total_outputs\|", "totals-gate", "every batch member passed load_relevant_coins' output_totals_fit gate (checked sums of the outputs per denomination and of the fee) before anything calls total_outputs on it (C01.R9, re-evaluated here)"),
     (r"^applytx::validate_and_get_doscmint_speed\|unwrap\|(expect|unwrap)\|core::slice::<impl \[T\]>::get\(\$3\.inputs, 0\)", "inv", "runs after check_tx_validity accepted the tx: total_outputs always has a MEL entry, so balancing demands a MEL input (C01.R3 missing=>err)"),
     (r"^coins::CoinMapping::(coin_count|get_coin|remove_coin)\|unwrap\|unwrap\|stdcode::deserialize\(Tree::get\(\$1\.inner", "inv", "coin keys and count keys are domain-separated and written only by this module with stdcode of the matching type (C20.R1/R2)"),
@@ -170,6 +171,10 @@ def r1_inventory(ctx):
         elif verdict == "selected":
             ok = _selected_ok(prog, s)
             r.check(ok, "site/" + key[:150], "inv: " + why, "outputs[%s] in a pool worker is no longer protected by the selection's length test" % sig(s.operands[1]), s.where())
+        elif verdict == "weights-capped":
+            from rules.props import c05 as _c05
+            capped = _c05._weigher_cap(prog, s.body, s.expr[2][3]) if s.expr is not None and s.expr[0] == "call" and len(s.expr[2]) > 3 else "weigher not found"
+            r.check(capped is True, "site/" + key[:150], "inv: " + why, "Transaction::base_fee is called with uncapped covenant weights (%s): their sum can overflow" % capped, s.where())
         elif verdict == "totals-gate":
             from rules.props import c01 as _c01
             n0 = len([x for x in r.instances if x.verdict == "violation"]) if hasattr(r, "instances") else None
